@@ -24,7 +24,7 @@ ASSUMPTIONS = ["open-scope model in this file (15 lines) encodes the property te
                "equal-onset rows and delayed groups only carry pairwise distinct names, because the order in which an "
                "unstable sort leaves equal onsets is not part of the property",
                "schema 8.3.0; times are dyadic so float sums are exact"]
-MIN_MONITOR_EVALS = {"issue-count-per-time-point": 300, "open-set-after-time-point": 300}
+MIN_MONITOR_EVALS = {"issue-count-per-time-point": 300, "open-set-after-time-point": 300, "validator-reused": 150}
 WATCHDOG_S = {"quick": 900, "thorough": 5400}
 
 
@@ -104,6 +104,10 @@ def build(case):
         if row.get("warn") and texts:
             body += f", Red/Zzwarn{r}"               # draws a warning (extended tag), no error
         heds.append("Zzunknowntag" if row.get("noise") else body)
+    if case.get("via_ref"):
+        for row in rows:
+            if not row.get("noise"):                       # (a row with an error is left out of the temporal checks)
+                eff.setdefault(round(row["onset"], 6), [])     # the sidecar's own tag makes every row a time point
     times = sorted(eff)
     tps = [[(k, n) for (_, _, k, n) in sorted(eff[t])] for t in times]
     row_tp = {}
@@ -111,6 +115,8 @@ def build(case):
         for (r, _, _, _) in eff[t]:
             row_tp[r] = ti
     df = pd.DataFrame({"onset": onsets, "HED": heds})
+    if case.get("via_ref"):
+        df["cat"] = ["x"] * len(heds)       # the markers reach the row through a sidecar entry that refers to {HED}
     if len(heds) % 2 == 1 and len(heds) > 1:
         # a frame whose index is not 0..n-1 (what is left after filtering or re-ordering another frame)
         lab = [3 * i + 7 for i in range(len(heds))]
@@ -151,7 +157,14 @@ def check_case(case, rec):
     want_counts, want_states = model(tps)
     _hook["log"] = []
     try:
-        issues = TabularInput(df).validate(schema, extra_def_dicts=dd)
+        sidecar = None
+        if case.get("via_ref"):
+            import io
+            import json
+            from hed.models.sidecar import Sidecar
+            sidecar = Sidecar(io.StringIO(json.dumps({"cat": {"HED": {"x": "{HED}, Blue"}}})))
+            rec.count("layout-option", "markers-via-sidecar-reference")
+        issues = TabularInput(df, sidecar=sidecar).validate(schema, extra_def_dicts=dd)
     except Exception as ex:  # noqa
         _hook["log"] = None
         rec.violation(f"file validation raised {type(ex).__name__}", case)
@@ -182,6 +195,24 @@ def check_case(case, rec):
     if got != want_counts:
         rec.violation("number of temporal issues per time point differs from the open-scope model",
                       dict(case, observed=got, model=want_counts))
+    if case.get("before"):
+        # one validator object used for the file validated just before and then for this one: every file starts with
+        # no scope open, whatever the validator saw earlier
+        from hed.validator.spreadsheet_validator import SpreadsheetValidator
+        rec.mon("validator-reused")
+        df0, _, _ = build(case["before"])
+        if case["before"].get("order"):
+            df0 = df0.iloc[case["before"]["order"]].reset_index(drop=True)
+        key = lambda i: (i["code"], i.get("ec_row"), i.get("severity"), i.get("message"))      # noqa
+        try:
+            sv = SpreadsheetValidator(schema)
+            sv.validate(TabularInput(df0), def_dicts=dd)
+            again = sv.validate(TabularInput(df, sidecar=sidecar), def_dicts=dd)
+        except Exception as ex:  # noqa
+            rec.violation(f"a validator used for a second file raised {type(ex).__name__}", case)
+            again = None
+        if again is not None and sorted(map(key, again), key=repr) != sorted(map(key, issues), key=repr):
+            rec.violation("a file's issues depend on the file its validator saw before", case)
     rec.mon("open-set-after-time-point", len(log))
     rec.count("open-set-state", "|".join(sorted(want_states[-1])) if want_states else "")
     if log != want_states:
@@ -246,7 +277,11 @@ def random_case(rng):
             r0["warn"] = True                          # (only where a marker stays in the row: the row is a time point)
     case = dict(rows=allrows, layout="random", history=[list(h) for h in history])
     if rng.random() < 0.15:
-        case["scale"] = [rng.choice([3600.0, 100000.0]), rng.choice([0.001, 0.0005])]
+        # (the last two: neighbouring times closer together than single precision resolves at that magnitude)
+        case["scale"] = list(rng.choice([(3600.0, 0.001), (100000.0, 0.0005), (3600.0, 0.0005), (5000.0, 0.0001),
+                                         (2500.0, 0.0001)]))
+    if rng.random() < 0.2:
+        case["via_ref"] = True
     if len({r["onset"] for r in allrows}) == len(allrows) and len(allrows) >= 2 and rng.random() < 0.35:
         order = list(range(len(allrows)))
         rng.shuffle(order)
@@ -276,8 +311,12 @@ def run_shard(shard, rec):
         rec.count("layout", "exhaustive", n_eval)
     else:
         rng.seed(f"c10-{shard['stream']}-{rng.random()}")
-        for _ in range(shard["n"]):
+        prev = None
+        for k in range(shard["n"]):
             case = random_case(rng)
+            if prev is not None and k % 2 == 1:
+                case["before"] = prev
+            prev = {x: y for x, y in case.items() if x != "before"}
             rec.case(case["rows"])
             check_case(case, rec)
             if rng.random() < 0.02:
@@ -287,3 +326,9 @@ def run_shard(shard, rec):
 
 def replay(case, rec):
     check_case(case, rec)
+
+
+def finalize(merged, tier, inconclusive):
+    got = merged.hist.get("layout-option", {}).get("markers-via-sidecar-reference", 0)
+    if got < 100:
+        inconclusive.append(f"files whose markers arrive through a sidecar reference: {got} (< 100)")
